@@ -29,9 +29,9 @@ def run(tier, seed, only=None):
     R = 2
     progs = c01.programs(tier, rng)
     if tier == 'quick':
-        core = [p for p in progs if p.note in ('atom', 'g-atom', 'join', 'projection')]
-        rest = [p for p in progs if p.note not in ('atom', 'g-atom', 'join', 'projection')]
-        progs = core[::2] + rng.sample(rest, min(len(rest), 80))
+        core = [p for p in progs if p.note in ('atom', 'g-atom', 't-atom', 'join', 'projection')]
+        rest = [p for p in progs if p.note not in ('atom', 'g-atom', 't-atom', 'join', 'projection')]
+        progs = core + rng.sample(rest, min(len(rest), 150))
     if only: progs = [p for p in progs if only in p.src]
     n = 0
     dialects = DIALECTS[1:] if tier == 'quick' else DIALECTS
